@@ -25,6 +25,21 @@ func VerifC16Grab(srcs, bases []string, fetch plugin.Fetcher, obj plugin.ObjTool
 	return grabSourcesAndBases(sources, bs, fetch, obj, ui, tr)
 }
 
+// VerifC16GrabT is VerifC16Grab for a run with explicit -seconds / -timeout values (source.Seconds,
+// source.Timeout as parseFlags stores them; -1 = flag not given).
+func VerifC16GrabT(srcs, bases []string, seconds, timeout int, fetch plugin.Fetcher, obj plugin.ObjTool, ui plugin.UI, tr http.RoundTripper) (p, pbase *profile.Profile, m, mbase plugin.MappingSources, save bool, err error) {
+	s := &source{Sources: srcs, Base: bases, Seconds: seconds, Timeout: timeout}
+	sources := make([]profileSource, 0, len(s.Sources))
+	for _, src := range s.Sources {
+		sources = append(sources, profileSource{addr: src, source: s})
+	}
+	bs := make([]profileSource, 0, len(s.Base))
+	for _, src := range s.Base {
+		bs = append(bs, profileSource{addr: src, source: s})
+	}
+	return grabSourcesAndBases(sources, bs, fetch, obj, ui, tr)
+}
+
 // VerifC16Fetch exposes fetchProfiles (fetch.go:41) for a source list / base list.
 func VerifC16Fetch(srcs, bases []string, diffBase bool, o *plugin.Options) (*profile.Profile, error) {
 	s := &source{Sources: srcs, Base: bases, DiffBase: diffBase, Symbolize: "none"}
